@@ -6,7 +6,7 @@
 From Coq Require Import List ZArith.
 From LJT Require Import gen.GenPnm model.Pnm model.Bmp proofs.PnmProofs proofs.PnmRoundtrip proofs.PnmTop proofs.PnmExamples
   proofs.BmpProofs proofs.BmpRoundtrip proofs.BmpTop gen.GenImgPrec model.ImgEntry proofs.ImgEntryProofs
-  gen.GenImgRd model.RdCommon model.Gif model.Tga proofs.GifProofs proofs.TgaProofs proofs.ImgRdTop.
+  gen.GenImgRd model.RdCommon model.Gif model.Tga proofs.GifProofs proofs.TgaProofs proofs.ImgRdTop proofs.GifStale proofs.PnmRescale.
 Import ListNotations.
 Local Open Scope Z_scope.
 
@@ -199,6 +199,46 @@ Theorem C18_source_gif_tga_constants :
   tga_max_maplen = 256 /\ tga_index_check = true /\ length c5to8 = 32%nat.
 Proof. exact source_constants. Qed.
 Print Assumptions C18_source_gif_tga_constants.
+
+(* (12) BMP through cjpeg (jinit_read_bmp(cinfo, TRUE): header validation, colormap, pad skipping, all rows
+   preloaded into the virtual array, then served top-down), EVERY byte string: no colormap / row-buffer index
+   out of range (B_OOB), only reported errors otherwise; a success has w,h >= 1, honours the pixel limit and
+   delivers h rows of w*components 8-bit samples *)
+Theorem C18_bmp_cjpeg_reader_safe : forall cmyk maxpixels s, bytes s ->
+  match load_bmp_cj cmyk maxpixels s with
+  | BOk (w, h, t, rows) =>
+    1 <= w /\ 1 <= h /\ (maxpixels = 0 \/ w * h <= maxpixels) /\ length rows = Z.to_nat h /\
+    (bclaim cmyk t -> Forall (fun row => Forall BmpProofs.byte row /\
+                                         length row = (Z.to_nat w * Z.to_nat (target_ps t))%nat) rows)
+  | BErr e => bsafe e
+  end.
+Proof. exact load_bmp_cj_spec. Qed.
+Print Assumptions C18_bmp_cjpeg_reader_safe.
+
+(* (13) GetCode fetches code_buf[offs..offs+2], which can reach past last_byte into stale bytes: the code
+   it returns depends only on the bytes below last_byte whenever cur_bit + code_size <= last_bit *)
+Theorem C18_gif_getcode_ignores_stale_bytes : forall (b b' : Z -> Z) lb cur cs,
+  (forall i, 0 <= i < lb -> b i = b' i) -> (forall i, 0 <= b i <= 255) -> (forall i, 0 <= b' i <= 255) ->
+  0 <= cur -> 1 <= cs <= 12 -> cur + cs <= 8 * lb ->
+  extract b cur cs = extract b' cur cs.
+Proof. exact extract_ignores_stale. Qed.
+Print Assumptions C18_gif_getcode_ignores_stale_bytes.
+Theorem C18_gif_model_getcode_is_extract : forall fuel st c st' (stale : Z -> Z),
+  io_ok st -> 1 <= z_cs st <= 12 -> (forall i, 0 <= stale i <= 255) -> Forall (fun x => 0 <= x < 256) (z_buf st) ->
+  (z_cur_bit st + z_cs st >? z_last_bit st) = false -> get_code fuel st = ROk (c, st') ->
+  c = extract (fun i => if i <? Z.of_nat (length (z_buf st)) then znth (z_buf st) i 0 else stale i) (z_cur_bit st) (z_cs st).
+Proof. exact getcode_result_independent_of_stale_bytes. Qed.
+Print Assumptions C18_gif_model_getcode_is_extract.
+
+(* (14) the maxval rescale in both directions: identity iff maxval = 2^prec-1; onto the target range when the
+   file has at least as many levels; strictly increasing (injective) when it has at most as many *)
+Theorem C18_ppm_rescale_both_directions : forall prec maxval, 0 <= prec -> 0 < maxval ->
+  ((forall v, 0 <= v <= maxval -> rescale_val prec maxval v = v) <-> maxval = 2 ^ prec - 1) /\
+  (2 ^ prec - 1 <= maxval -> forall y, 0 <= y <= 2 ^ prec - 1 -> exists v, 0 <= v <= maxval /\ rescale_val prec maxval v = y) /\
+  (maxval <= 2 ^ prec - 1 -> forall v1 v2, 0 <= v1 < v2 -> rescale_val prec maxval v1 < rescale_val prec maxval v2) /\
+  rescale_val prec maxval 0 = 0 /\ rescale_val prec maxval maxval = 2 ^ prec - 1.
+Proof. exact rescale_both_directions. Qed.
+Print Assumptions C18_ppm_rescale_both_directions.
 
 (* ---- non-vacuity ---- *)
 Example C18_ex_text_ok : bytes f_text /\ load_pnm cmyk_exact look_tbl 2 0 None false f_text = Ok (2, 1, TGray, [[1; 2]]).
